@@ -42,6 +42,11 @@ def run_one(prop, mut, tier, tests):
     try:
         shutil.copytree(os.path.join(REPO, 'fim'), os.path.join(scratch, 'fim'),
                         ignore=shutil.ignore_patterns('__pycache__'))
+        for fn in os.listdir(REPO):
+            if fn.endswith('.graphml'):
+                shutil.copy(os.path.join(REPO, fn), scratch)
+        shutil.copytree(os.path.join(REPO, 'test'), os.path.join(scratch, 'test'),
+                        ignore=shutil.ignore_patterns('__pycache__'))
         for m in ([mut] + mut.get('also', [])):
             apply(m, scratch)
         env = dict(os.environ, VERIF_REPO=scratch, PYTHONDONTWRITEBYTECODE='1', VERIF_NO_EVIDENCE='1', VERIF_REPLAY_DIR=os.path.join(scratch, 'replay'))
@@ -52,10 +57,6 @@ def run_one(prop, mut, tier, tests):
             return mut['name'], 'DOES-NOT-IMPORT', r.stderr[-300:]
         test_res = ''
         if tests:
-            shutil.copytree(os.path.join(REPO, 'test'), os.path.join(scratch, 'test'))
-            for fn in os.listdir(REPO):
-                if fn.endswith('.graphml'):
-                    shutil.copy(os.path.join(REPO, fn), scratch)
             t = subprocess.run(['/venv/bin/python', '-m', 'pytest', '-q', '-p', 'no:cacheprovider', '-x', '-n', '8',
                                 '--deselect', 'test/zz_neo4j_pg_test.py', '--deselect', 'test/slice_topology_test.py',
                                 '--deselect', 'test/modify_test.py', '--deselect',
